@@ -18,6 +18,11 @@ steady_clock::time_point steady_clock::now() noexcept { return time_point(nanose
 }}}
 int      g_prop;
 int      g_fail;
+#ifdef VAL_COUNTED
+extern "C" {
+int64_t g_live, g_bad;
+}
+#endif
 int      g_step;
 extern "C" {
 void     __vf_assert(bool c, int id) { if (!c) { printf("CLAUSE-FAIL id=%d step=%d\n", id, g_step); ++g_fail; } }
@@ -81,15 +86,15 @@ static bool build_state(C& c, const Abs& t, int64_t last_now)
     at(0);
     dummies_begin(c);
 #if T_POLICY == P_LRU && T_TTL == 0
-    for (size_t p = t.n; p-- > 0;) { dummies_room(c); c.insert(t.k[p], t.v[p]); }
+    for (size_t p = t.n; p-- > 0;) { dummies_room(c); x_insert(c, t.k[p], t.v[p], 3, 0); }
 #elif T_POLICY == P_LRU && T_TTL == 1 /* tlru: per-entry ttl, all written at time 0 */
-    for (size_t p = t.n; p-- > 0;) { dummies_room(c); c.insert(std::chrono::milliseconds{t.d[p]}, t.k[p], t.v[p]); }
+    for (size_t p = t.n; p-- > 0;) { dummies_room(c); x_insert(c, t.k[p], t.v[p], 3, t.d[p]); }
 #elif T_POLICY == P_LRU && T_TTL == 2 /* utlru: the ttl in force is reconfigured before each write */
-    for (size_t p = t.n; p-- > 0;) { dummies_room(c); c.update_ttl(std::chrono::milliseconds{t.d[p]}); c.insert(t.k[p], t.v[p]); }
+    for (size_t p = t.n; p-- > 0;) { dummies_room(c); c.update_ttl(std::chrono::milliseconds{t.d[p]}); x_insert(c, t.k[p], t.v[p], 3, 0); }
 #elif T_POLICY == P_MRU || T_POLICY == P_FIFO || T_POLICY == P_RR
-    for (size_t p = 0; p < t.n; ++p) { dummies_room(c); c.insert(t.k[p], t.v[p]); }
+    for (size_t p = 0; p < t.n; ++p) { dummies_room(c); x_insert(c, t.k[p], t.v[p], 3, 0); }
 #elif T_POLICY == P_LFU
-    for (size_t p = 0; p < t.n; ++p) { dummies_room(c); c.insert(t.k[p], t.v[p]); }
+    for (size_t p = 0; p < t.n; ++p) { dummies_room(c); x_insert(c, t.k[p], t.v[p], 3, 0); }
     dummies_end(c);
     for (size_t p = 0; p < t.n; ++p)
         for (uint64_t u = 1; u < t.cnt[p]; ++u) c.find(t.k[p]);
@@ -98,7 +103,7 @@ static bool build_state(C& c, const Abs& t, int64_t last_now)
     {
         size_t ord[AMAX]; for (size_t p = 0; p < t.n; ++p) ord[p] = p;
         for (size_t i = 0; i < t.n; ++i) for (size_t j = i + 1; j < t.n; ++j) if (t.age[ord[j]] < t.age[ord[i]]) { size_t x = ord[i]; ord[i] = ord[j]; ord[j] = x; }
-        for (size_t i = 0; i < t.n; ++i) { size_t p = ord[i]; dummies_room(c); at(t.age[p]); c.insert(t.k[p], t.v[p]); for (uint64_t u = 1; u < t.cnt[p]; ++u) c.find(t.k[p]); }
+        for (size_t i = 0; i < t.n; ++i) { size_t p = ord[i]; dummies_room(c); at(t.age[p]); x_insert(c, t.k[p], t.v[p], 3, 0); for (uint64_t u = 1; u < t.cnt[p]; ++u) c.find(t.k[p]); }
     }
 #elif T_POLICY == P_NONE /* ut_map / ut_set: uniform ttl fixed at construction; written at deadline - ttl, in ttl order */
     for (size_t p = 0; p < t.n; ++p) { at(t.d[p] - t.ttl); x_insert(c, t.k[p], t.v[p], 3, 0); }
@@ -318,6 +323,11 @@ int main(int argc, char** argv)
         }
     }
     fclose(f);
+#ifdef VAL_COUNTED
+    // the container is gone: every instance of the counting value type must be gone too, none touched while dead
+    printf("COUNTED live=%lld bad=%lld\n", (long long)g_live, (long long)g_bad);
+    if (g_live != 0 || g_bad != 0) { printf("CLAUSE-FAIL id=8002 step=%d\n", g_step); ++g_fail; }
+#endif
     printf("REPLAY-DONE steps=%d clause_failures=%d\n", g_step, g_fail);
     return g_fail ? 1 : 0;
 }
